@@ -706,6 +706,12 @@ pub fn c12(ctx: &mut Ctx) {
             3 => String::new(),
             _ => r.pick(&corpus.sentences).clone(),
         };
+        // the cut between P and D lies behind the whole run of line breaks: a D that opens with a line break only makes
+        // the blank line that closes P longer (a break token that straddles the cut belongs to neither side; a lint that
+        // covers P's closing break - the sentence-length lint when P ends in an abbreviation such as `n.` - would differ
+        // by the length of that token and say nothing about D reaching into P)
+        let lead: String = d.chars().take_while(|c| *c == '\n').collect();
+        let (p, d) = if lead.is_empty() { (p, d) } else { (format!("{p}{lead}"), d[lead.len()..].to_string()) };
         let whole = format!("{p}{d}");
         if !ctx.begin_case(|| json!({"fam": "c12", "text": whole}).to_string()) {
             continue;
